@@ -17,7 +17,7 @@ BASE = datetime.datetime(2020, 1, 1)
 # key columns: name -> how an abstract key number is rendered (every rendering is strictly monotone)
 COLKIND = {'k': 'int', 'j': 'str', 'when': 'date'}
 ON_MENU = {1: [['k'], ['j'], ['when']],
-           2: [['k', 'j'], ['j', 'k'], ['when', 'k'], ['k', 'when'], ['when', 'j']]}   # abstract position p <-> on[p]
+           2: [['k', 'j'], ['j', 'k'], ['when', 'k'], ['k', 'when'], ['when', 'j'], ['j', 'when']]}   # abstract position p <-> on[p]
 FORMS = ['own', 'data', 'single', 'extra', 'renamed']
 PAST_ORD, FUTURE_ORD = 730120, 1094998      # 2000-01-01, 2999-01-01 as in MC_Perdictable.tla
 
@@ -43,22 +43,28 @@ def unrender_key(col, v):
     return -1
 
 
-def make_f(n):
-    """the counting function of n parameters a, b, ...: records its arguments, returns ('f', a, b, ...)"""
+def make_f(n, sig=0):
+    """the counting function of n parameters a, b, ...: records its arguments, returns ('f', a, b, ...).
+    The last `sig` parameters carry python default values in the signature (never used: every input is passed)."""
     calls = []
     ps = ', '.join(NAMES[:n])
+    decl = ', '.join(nm if i < n - sig else '%s = "signature default of %s"' % (nm, nm) for i, nm in enumerate(NAMES[:n]))
     ns = {'calls': calls}
-    exec('def f(%s):\n    calls.append((%s,))\n    return ("f", %s)\n' % (ps, ps, ps), ns)
+    exec('def f(%s):\n    calls.append((%s,))\n    return ("f", %s)\n' % (decl, ps, ps), ns)
     return ns['f'], calls
 
 
-def make_table(on, rows, extra, rng):
-    """a dictable with key columns `on` and the columns of `extra` = {column: [values per row]}; rows and columns shuffled"""
+def make_table(on, rows, extra, rng, keycols='shuffle'):
+    """a dictable with key columns `on` and the columns of `extra` = {column: [values per row]}; rows shuffled; columns
+    shuffled, or the key columns first in the order of `on` ('same') or against it ('reverse')"""
     from pyg_base import dictable
     idx = list(range(len(rows)))
     rng.shuffle(idx)
     cols = list(on) + list(extra)
-    rng.shuffle(cols)
+    if keycols == 'shuffle':
+        rng.shuffle(cols)
+    elif keycols == 'reverse':
+        cols = list(on)[::-1] + list(extra)
     if not rows:
         return dictable([], cols)
     data = {}
@@ -96,13 +102,15 @@ def render(c, form, rng, data_obj=None):
         else:
             extra = {'col_' + nm: vals, 'noise': list(range(len(vals)))}
             renames[nm] = 'col_' + nm
-        inputs[nm] = make_table(on, x['rows'], extra, rng)
+        inputs[nm] = make_table(on, x['rows'], extra, rng, form.get('keycols', 'shuffle'))
     all_scalar = all(x['kind'] == 'scalar' for x in c['ins'])
     cache = {}
     for what, style in (('data', form['data']), ('expiry', form['expiry'])):
         x = c[what]
         if what == 'data' and data_obj is not None:
             cache[what] = data_obj
+        elif x['kind'] == 'scalar':
+            cache[what] = untag(x['v'])                  # one expiry for every row
         elif x['kind'] == 'keyed':
             col = what if (what == 'data' or style % 2 == 0) else 'data'
             cache[what] = make_table(on, x['rows'], {col: [untag(r['v']) for r in x['rows']]}, rng)
@@ -164,22 +172,30 @@ def observe(job):
     today = datetime.date.today().toordinal()
     names = NAMES[:len(c['ins'])]
     dargs = lambda defaults: dict(defaults) if (defaults or form['defs'] % 2) else None
+    # python default values in F's signature only together with an explicit `defaults` (then they must not matter);
+    # with defaults=None the code reads them as the defaults, which the statement does not speak of
+    sig = lambda defaults: min(form.get('sig', 0), len(names)) if dargs(defaults) is not None else 0
     data_obj = None
     if job.get('first') is not None:
         on, on_arg, inputs, renames, defaults, _ = render(job['first'], form, rng)
-        f0, _calls0 = make_f(len(names))
+        f0, _calls0 = make_f(len(names), sig(defaults))
         res1 = perdictable(f0, on=on_arg, renames=renames or None, defaults=dargs(defaults))(**inputs)
         p1 = project(res1, on, names, 'run', None)
         if isinstance(res1, dictable) and p1['kind'] == 'table':
             data_obj = res1
             rows = sorted(p1['rows'], key=lambda r: r['key'])
-            exp = [{'key': r['key'], 'v': EXPIRY_OF[st](today, n)} for n, r in enumerate(rows)
-                   for st in [job['plan'][n % len(job['plan'])]] if st != 'absent']
-            c = dict(c, data={'kind': 'keyed', 'rows': rows},
-                     expiry={'kind': 'keyed', 'rows': exp} if exp else {'kind': 'absent', 'rows': []})
+            plan = job['plan']
+            if plan[0].startswith('scalar_'):           # one expiry for all the rows (every row of the second call is cached)
+                expiry = {'kind': 'scalar', 'rows': [], 'v': EXPIRY_OF[plan[0][7:]](today, len(rows))}
+            else:
+                exp = [{'key': r['key'], 'v': EXPIRY_OF[st](today, n)} for n, r in enumerate(rows)
+                       for st in [plan[n % len(plan)]] if st != 'absent']
+                expiry = {'kind': 'keyed', 'rows': exp, 'v': ["n", 0]} if exp else {'kind': 'absent', 'rows': [], 'v': ["n", 0]}
+            c = dict(c, data={'kind': 'keyed', 'rows': rows, 'v': ["n", 0]}, expiry=expiry)
     on, on_arg, inputs, renames, defaults, cache = render(c, form, rng, data_obj)
-    f, calls = make_f(len(names))
-    o = {'api': api, 'c': c, 'today': today, 'form': form, 'salt': job['salt'], 'chained': data_obj is not None}
+    f, calls = make_f(len(names), sig(defaults))
+    o = {'api': api, 'c': c, 'today': today, 'form': form, 'salt': job['salt'], 'chained': data_obj is not None,
+         'alpha': on == sorted(on)}          # `on` names the key columns in alphabetical order
     if data_obj is not None:
         o['first'], o['plan'] = job['first'], job['plan']
     try:
@@ -216,7 +232,17 @@ def bag(xs):
 
 def mk_form(rng, n):
     return {'on': rng.randrange(12), 'ins': [rng.randrange(len(FORMS)) for _ in range(n)],
-            'data': rng.randrange(6), 'expiry': rng.randrange(6), 'defs': rng.randrange(2)}
+            'data': rng.randrange(6), 'expiry': rng.randrange(6), 'defs': rng.randrange(2),
+            'sig': rng.randrange(n + 1), 'keycols': rng.choice(['shuffle', 'same', 'reverse'])}
+
+
+def alpha_form(rng, n, nk, keycols):
+    """a rendering in which `on` is alphabetical (there the order of the rows is pinned) with the given stored column order"""
+    form = mk_form(rng, n)
+    while ON_MENU[nk][form['on'] % len(ON_MENU[nk])] != sorted(ON_MENU[nk][form['on'] % len(ON_MENU[nk])]):
+        form['on'] += 1
+    form['keycols'] = keycols
+    return form
 
 
 def describe(c):
@@ -229,13 +255,13 @@ def describe(c):
             'pairs' if all(v[0] == 't' and len(v[1]) == 2 for v in olds) else \
             'lists' if all(v[0] == 'l' for v in olds) else 'dicts' if all(v[0] == 'm' for v in olds) else 'other'
     return {'kind': kind, 'nk': c['nk'], 'n': len(c['ins']), 'tables': len(tabs),
-            'cached': c['data']['kind'] == 'keyed', 'expiries': c['expiry']['kind'] == 'keyed',
+            'cached': c['data']['kind'] == 'keyed', 'expiries': c['expiry']['kind'],
             'cached_shape': shape}     # what every previously computed value looks like: pairs / lists / dicts / other
 
 
 def case_of(o):
     d = describe(o['c'])
-    d.update({'api': o['api'], 'form': o['form'], 'salt': o.get('salt'), 'chained': bool(o.get('chained')), 'c': o['c']})
+    d.update({'api': o['api'], 'alpha': o['alpha'], 'form': o['form'], 'salt': o.get('salt'), 'chained': bool(o.get('chained')), 'c': o['c']})
     if o.get('chained'):
         d.update({'first': o['first'], 'plan': o['plan']})
     return d
@@ -266,21 +292,28 @@ def s2c(ctx, cases, label):
     jobs, wants = [], []
     for k, case in enumerate(cases):
         c = case['c']
+        n, nk = len(c['ins']), c['nk']
         for api in ('run', 'join'):
-            if api == 'join' and c['data']['kind'] == 'keyed':
+            if api == 'join' and (c['data']['kind'] != 'absent' or c['expiry']['kind'] != 'absent'):
                 continue
-            jobs.append({'c': c, 'api': api, 'form': mk_form(rng, len(c['ins'])), 'salt': rng.randrange(1 << 30)})
-            wants.append(case)
+            forms = [mk_form(rng, n)]
+            if nk == 2 and c['data']['kind'] == 'absent':     # where the order of `on` is pinned: stored column order with / against `on`
+                forms += [alpha_form(rng, n, nk, 'reverse'), alpha_form(rng, n, nk, 'same')]
+            for form in forms:
+                jobs.append({'c': c, 'api': api, 'form': form, 'salt': rng.randrange(1 << 30)})
+                wants.append(case)
     obs = pmap(jobs)
     failing = []
     for o, case in zip(obs, wants):
         ctx.evals += 1
         if o['api'] == 'run':
-            ok = o['out'] in case['run'] and bag(o['calls']) == bag(case['calls'])
-            want = {'one_of': case['run'], 'calls': case['calls']}
+            accepted = case['run']['alpha' if o['alpha'] else 'other']
+            ok = o['out'] in accepted and bag(o['calls']) == bag(case['calls'])
+            want = {'one_of': accepted, 'calls': case['calls']}
         else:
-            ok = o['out'] in case['join']
-            want = {'one_of': case['join']}
+            accepted = case['join']['alpha' if o['alpha'] else 'other']
+            ok = o['out'] in accepted
+            want = {'one_of': accepted}
         if ok:
             ctx.traces += 1
         else:
@@ -326,8 +359,8 @@ def rand_cfg(rng, today):
         defs.append([rng.choice(vals)] if rng.random() < 0.35 else [])
     tabs = [i for i in range(n) if ins[i]['kind'] == 'keyed']
     strict = [i for i in tabs if not defs[i]]
-    data = {'kind': 'absent', 'rows': []}
-    expiry = {'kind': 'absent', 'rows': []}
+    data = {'kind': 'absent', 'rows': [], 'v': ["n", 0]}
+    expiry = {'kind': 'absent', 'rows': [], 'v': ["n", 0]}
     if tabs and rng.random() < 0.7:
         # previously computed keys: anywhere when some table is inner-joined (lost keys are dropped), else among
         # the keys of one table input (see CacheInsideJoin in the specification)
@@ -343,7 +376,7 @@ def rand_cfg(rng, today):
         elif style < 0.28:
             olds = [["m", [["x", ["i", 1]]]], ["m", [["x", ["i", 2]], ["y", ["n", 0]]]]]
         if cached:
-            data = {'kind': 'keyed', 'rows': [{'key': k, 'v': rng.choice(olds)} for k in cached]}
+            data = {'kind': 'keyed', 'rows': [{'key': k, 'v': rng.choice(olds)} for k in cached], 'v': ["n", 0]}
             rows = []
             for k in cached:
                 st = rng.choice(['absent', 'past', 'past', 'future', 'none'])
@@ -354,7 +387,7 @@ def rand_cfg(rng, today):
                 elif st == 'none':
                     rows.append({'key': k, 'v': ["n", 0]})
             if rows:
-                expiry = {'kind': 'keyed', 'rows': rows}
+                expiry = {'kind': 'keyed', 'rows': rows, 'v': ["n", 0]}
     return {'nk': nk, 'ins': ins, 'defs': defs, 'data': data, 'expiry': expiry}
 
 
@@ -362,7 +395,7 @@ def rand_chain(rng, today):
     """two calls: the first without cache, the second on re-drawn values (and, when some table is inner-joined, thinned
     key sets) receiving the first result as `data`"""
     first = rand_cfg(rng, today)
-    first = dict(first, data={'kind': 'absent', 'rows': []}, expiry={'kind': 'absent', 'rows': []})
+    first = dict(first, data={'kind': 'absent', 'rows': [], 'v': ["n", 0]}, expiry={'kind': 'absent', 'rows': [], 'v': ["n", 0]})
     second = json.loads(json.dumps(first))
     strict = any(x['kind'] == 'keyed' and not d for x, d in zip(second['ins'], second['defs']))
     fresh = [["i", 11], ["i", 12], ["s", "w"], ["n", 0], ["f", [7, 2]]]
@@ -374,6 +407,8 @@ def rand_chain(rng, today):
                 if rng.random() < 0.5:
                     r['v'] = rng.choice(fresh)
     plan = [rng.choice(['absent', 'past', 'past', 'future', 'none']) for _ in range(rng.choice([1, 3, 7]))]
+    if rng.random() < 0.3:
+        plan = [rng.choice(['scalar_past', 'scalar_past', 'scalar_future', 'scalar_none'])]
     return first, second, plan
 
 
@@ -402,7 +437,7 @@ def c2s(ctx, nconf):
         c = rand_cfg(ctx.rng, today)
         n = len(c['ins'])
         jobs.append({'c': c, 'api': 'run', 'form': mk_form(ctx.rng, n), 'salt': ctx.rng.randrange(1 << 30)})
-        cj = dict(c, data={'kind': 'absent', 'rows': []}, expiry={'kind': 'absent', 'rows': []})
+        cj = dict(c, data={'kind': 'absent', 'rows': [], 'v': ["n", 0]}, expiry={'kind': 'absent', 'rows': [], 'v': ["n", 0]})
         jobs.append({'c': cj, 'api': 'join', 'form': mk_form(ctx.rng, n), 'salt': ctx.rng.randrange(1 << 30)})
     for _ in range(nconf // 2):
         first, second, plan = rand_chain(ctx.rng, today)
@@ -440,7 +475,7 @@ def replay(ctx, body):
     case = body['case']
     job = {'c': case['c'], 'api': case['api'], 'form': case['form'], 'salt': case.get('salt') or 0}
     if case.get('chained'):             # the second of two chained calls: make the first one again
-        job.update({'c': dict(case['c'], data={'kind': 'absent', 'rows': []}, expiry={'kind': 'absent', 'rows': []}),
+        job.update({'c': dict(case['c'], data={'kind': 'absent', 'rows': [], 'v': ["n", 0]}, expiry={'kind': 'absent', 'rows': [], 'v': ["n", 0]}),
                     'first': case['first'], 'plan': case['plan']})
     o = observe(job)
     bad = ctx.validate('Trace_Perdictable', [o])
